@@ -296,10 +296,31 @@ public:
     }
 
 private:
+    // Containers nest by recursion; bound the depth so hostile input cannot exhaust the stack.
+    static constexpr std::size_t kMaxDepth = 128;
+
+    struct DepthGuard {
+        explicit DepthGuard(std::size_t& depth) : depth_(depth) {
+            if (++depth_ > kMaxDepth) {
+                --depth_;
+                throw std::runtime_error("JSON document is nested too deeply");
+            }
+        }
+        ~DepthGuard() {
+            --depth_;
+        }
+        DepthGuard(const DepthGuard&) = delete;
+        DepthGuard& operator=(const DepthGuard&) = delete;
+        std::size_t& depth_;
+    };
+
+    std::size_t depth_{0};
+
     JsonValue parse_value() {
         if (eof()) {
             throw std::runtime_error("Unexpected end of JSON input");
         }
+        const DepthGuard guard(depth_);
         const char ch = peek();
         if (ch == '"') {
             JsonValue value;
